@@ -17,10 +17,12 @@ theorem len16' {l : Bytes} (h : l.length = 16) : ∃ a0 a1 a2 a3 a4 a5 a6 a7 a8 
   | [a0, a1, a2, a3, a4, a5, a6, a7, a8, a9, a10, a11, a12, a13, a14, a15], _ =>
     exact ⟨a0, a1, a2, a3, a4, a5, a6, a7, a8, a9, a10, a11, a12, a13, a14, a15, rfl⟩
 
-/-- IPv6 header: version 6, three further bytes of traffic class / flow label, payload length, next
-    header, hop limit, addresses -/
+/-- IPv6 header: version 6 and EVERY value of the 28 traffic-class / flow-label bits, payload length,
+    next header, hop limit, addresses.  The traffic class straddles bytes 0 and 1: `b1` carries its
+    upper nibble in bits 8..11 (byte 0 is `0x60 + (b1 / 256) % 16`) and byte 1 in its low 8 bits, so
+    quantifying over all `b1 b2 b3` covers every header a DSCP-rewriting router can produce. -/
 def rawHdr6 (b1 b2 b3 plen nh hop : Nat) (src dst : Bytes) : Bytes :=
-  [byte 0x60, byte b1, byte b2, byte b3] ++ be16 plen ++ [byte nh, byte hop] ++ src ++ dst
+  [byte (0x60 + (b1 / 256) % 16), byte b1, byte b2, byte b3] ++ be16 plen ++ [byte nh, byte hop] ++ src ++ dst
 
 theorem rawHdr6_length (b1 b2 b3 plen nh hop : Nat) (src dst : Bytes) (hs : src.length = 16) (hd : dst.length = 16) :
     (rawHdr6 b1 b2 b3 plen nh hop src dst).length = 40 := by
@@ -88,11 +90,12 @@ theorem parse_icmpMsg6 {ob1 ob2 ob3 ohop ty code ick : Nat} {r dst rest4 body : 
     (pl := ([byte ty, byte code] ++ be16 ick ++ rest4) ++ body) hr hd (by omega) (by omega) (by omega) (by omega) hhop
   rw [take_of_le (by rw [hlenpl]; omega)] at hip
   obtain ⟨a, b, c, d, rfl⟩ := len4 hrest
-  have hb0 : u8 (icmpMsg6 ob1 ob2 ob3 ohop r dst ty code ick [a, b, c, d] body) 0 = some 0x60 := by
-    simp [icmpMsg6, rawHdr6, u8, byte_toNat]
+  have hb0 : u8 (icmpMsg6 ob1 ob2 ob3 ohop r dst ty code ick [a, b, c, d] body) 0 = some (0x60 + (ob1 / 256) % 16) := by
+    simp [icmpMsg6, rawHdr6, u8]; rw [byte_toNat (by omega)]
   unfold parse
   rw [hb0]
-  simp only [show (0x60 : Nat) / 16 = 4 ↔ False by decide, show (0x60 : Nat) / 16 = 6 by decide, if_false, if_true]
+  have hv : (0x60 + (ob1 / 256) % 16) / 16 = 6 := by omega
+  simp only [hv, show ((6 : Nat) = 4) = False by decide, if_false, if_true]
   unfold icmpMsg6
   rw [hip]
   have hne : (([byte ty, byte code] ++ be16 ick ++ [a, b, c, d]) ++ body).isEmpty = false := by simp [be16]
@@ -136,12 +139,13 @@ theorem icmpInfo6_quote {ty code : Nat} {qb1 qb2 qb3 qplen qnh qhop : Nat} {qsrc
       some { wrappedId := if qnh = 17 then qplen else 0, proto := qnh, qsrc := qsrc, qdst := qdst,
              payload := l4x.take qplen } := by
   obtain ⟨a, b, c, d, rfl⟩ := len4 hrest
-  have h4b : u8 ([a, b, c, d] ++ (rawHdr6 qb1 qb2 qb3 qplen qnh qhop qsrc qdst ++ l4x)) 4 = some 0x60 := by
-    simp [rawHdr6, u8, byte_toNat]
+  have h4b : u8 ([a, b, c, d] ++ (rawHdr6 qb1 qb2 qb3 qplen qnh qhop qsrc qdst ++ l4x)) 4 = some (0x60 + (qb1 / 256) % 16) := by
+    simp [rawHdr6, u8]; rw [byte_toNat (by omega)]
   have hdrop : ([a, b, c, d] ++ (rawHdr6 qb1 qb2 qb3 qplen qnh qhop qsrc qdst ++ l4x)).drop 4 =
       rawHdr6 qb1 qb2 qb3 qplen qnh qhop qsrc qdst ++ l4x := by simp
   unfold icmpInfo6
-  simp only [h4b, hdrop, show ¬ ((0x60 : Nat) / 16 ≠ 6) by decide, if_false,
+  have hv : (0x60 + (qb1 / 256) % 16) / 16 = 6 := by omega
+  simp only [h4b, hdrop, hv, ne_eq, not_true_eq_false, if_false,
     ip6_rawHdr6 hs hd h1 h2 h3 h4 h5, Option.map_some]
 
 /-- ICMP/IPv6 completeness on bytes: a time-exceeded (any code) from router `r`, any traffic class /
